@@ -8,7 +8,7 @@ changes.  `--clean` removes them.  Static only: facts are extracted by the drive
 import glob, hashlib, importlib, json, os, re, shutil, subprocess, sys
 
 V = os.path.dirname(os.path.dirname(os.path.abspath(__file__)))
-os.environ.setdefault('DESFACTS_CACHE_MAX', '500')
+os.environ.setdefault('DESFACTS_CACHE_MAX', '900')
 sys.path.insert(0, V)
 from rules.engine.run import Ctx, load_known
 from rules.engine.core import Program, MissingAnchor, TooManyPaths
@@ -59,6 +59,9 @@ def keys_for(d, pid):
         mod.run(ctx)
     except (MissingAnchor, TooManyPaths) as e:
         ctx.violation('engine:%s' % e, str(e))
+    except Exception as e:   # a crashing rule is a broken check: reported like an alarm
+        import traceback
+        ctx.violation('engine-crash:%s:%s' % (type(e).__name__, e), traceback.format_exc()[-600:])
     known = {k['key'] for k in load_known().get('known', [])}
     return [v['key'] for v in ctx.violations if v['key'] not in known]
 
@@ -89,38 +92,83 @@ def main():
         if not os.path.exists(os.path.join(V, 'seeded', sid, 'patch.diff')):
             breaking.append((sid, sid[:3], 'patch', {'path': p}))
     refac = [(os.path.basename(p).split('.')[0], p) for p in sorted(glob.glob(os.path.join(V, 'refactorings', '*', '*.patch.diff')))]
+    jobs = 1
+    for a in sys.argv[1:]:
+        if a.startswith('--jobs='):
+            jobs = int(a.split('=')[1])
+    if jobs > 1:
+        # phase 1: scratch copies + fact extraction, trees partitioned over workers (each with its own cargo target directory)
+        import multiprocessing as mp
+        get_facts('/repo', 'A')
+        trees = [(eid, kind, spec) for eid, prop, kind, spec in breaking if prop in props] + [(rid, 'patch', {'path': p}) for rid, p in refac]
+        with mp.Pool(jobs) as pool:
+            done = 0
+            for _ in pool.imap_unordered(_prewarm, trees, chunksize=4):
+                done += 1
+                if done % 50 == 0:
+                    print('  [prewarm %d/%d]' % (done, len(trees)), flush=True)
+        os.environ.pop('DESFACTS_SLOT', None)
+        with mp.Pool(jobs) as pool:
+            bad = 0
+            for lines, b in pool.imap(_one_property, [(pid, breaking, refac, expected_miss) for pid in props]):
+                print('\n'.join(lines), flush=True)
+                bad += b
+        print('regress: %d problem(s)' % bad)
+        return 1 if bad else 0
     bad = 0
     for pid in props:
-        print('== %s' % pid, flush=True)
-        base = keys_for('/repo', pid)
-        if base:
-            print('  ALARM on /repo: %s' % base); bad += 1
-        for eid, prop, kind, spec in breaking:
-            if prop != pid:
-                continue
-            d = scratch(eid, kind, spec)
-            if d is None:
-                print('  %-28s does not apply' % eid); continue
-            ks = keys_for(d, pid)
-            if ks is None:
-                print('  %-28s does not compile' % eid); continue
-            if ks:
-                print('  %-28s fires   %s' % (eid, sorted({k.split(':')[0] for k in ks})))
-            elif eid in expected_miss:
-                print('  %-28s MISS-EXPECTED (%s)' % (eid, expected_miss[eid][:80]))
-            else:
-                print('  %-28s SILENT  <<<<<<<<' % eid); bad += 1
-        for rid, p in refac:
-            d = scratch(rid, 'patch', {'path': p})
-            if d is None:
-                print('  %-28s refactoring does not apply' % rid); continue
-            ks = keys_for(d, pid)
-            if ks is None:
-                print('  %-28s refactoring does not compile' % rid); continue
-            if ks:
-                print('  %-28s FALSE ALARM %s  <<<<<<<<' % (rid, ks)); bad += 1
+        lines, b = _one_property((pid, breaking, refac, expected_miss))
+        print('\n'.join(lines), flush=True)
+        bad += b
     print('regress: %d problem(s)' % bad)
     return 1 if bad else 0
+
+
+def _prewarm(t):
+    import multiprocessing as mp
+    os.environ['DESFACTS_SLOT'] = str(mp.current_process()._identity[0])
+    eid, kind, spec = t
+    d = scratch(eid, kind, spec)
+    if d is not None:
+        try:
+            get_facts(d, 'A')
+        except ExtractError:
+            pass
+    return eid
+
+
+def _one_property(arg):
+    pid, breaking, refac, expected_miss = arg
+    out = ['== %s' % pid]
+    bad = 0
+    base = keys_for('/repo', pid)
+    if base:
+        out.append('  ALARM on /repo: %s' % base); bad += 1
+    for eid, prop, kind, spec in breaking:
+        if prop != pid:
+            continue
+        d = scratch(eid, kind, spec)
+        if d is None:
+            out.append('  %-28s does not apply' % eid); continue
+        ks = keys_for(d, pid)
+        if ks is None:
+            out.append('  %-28s does not compile' % eid); continue
+        if ks:
+            out.append('  %-28s fires   %s' % (eid, sorted({k.split(':')[0] for k in ks})))
+        elif eid in expected_miss:
+            out.append('  %-28s MISS-EXPECTED (%s)' % (eid, expected_miss[eid][:80]))
+        else:
+            out.append('  %-28s SILENT  <<<<<<<<' % eid); bad += 1
+    for rid, p in refac:
+        d = scratch(rid, 'patch', {'path': p})
+        if d is None:
+            out.append('  %-28s refactoring does not apply' % rid); continue
+        ks = keys_for(d, pid)
+        if ks is None:
+            out.append('  %-28s refactoring does not compile' % rid); continue
+        if ks:
+            out.append('  %-28s FALSE ALARM %s  <<<<<<<<' % (rid, ks)); bad += 1
+    return out, bad
 
 
 if __name__ == '__main__':
